@@ -204,8 +204,9 @@ fn main() {
     main_with("c17", "exploration", |run: &Run| {
         run.set_rule(
             "All lines with both end points in [-R,R]^2 (exhaustive: all octants, horizontal, vertical, diagonal, zero length) x stroke widths 1..=W, at three positions (origin-centred, shifted negative, shifted far positive); \
-             plus random long lines (|delta| <= 200, widths <= 20). Non-trivial = start != end; distinct = distinct (start, end).",
+             plus random long lines (|delta| <= 200, widths <= 20; display-scale lines up to +-1024 with widths up to 128; a few very long lines with a major-axis delta of 32 760..=46 000). Non-trivial = start != end; distinct = distinct (start, end).",
         );
+        run.assume("very long lines stay inside the domain in which the squared Euclidean length fits the library's i32 arithmetic (length below 46 341 pixels); longer lines are not generated");
         let (r, wmax) = run.tier((10i32, 10u32), (18i32, 18u32));
         let span = (2 * r + 1) as u64;
         let n = span * span;
@@ -236,6 +237,23 @@ fn main() {
             };
             let ws = [1, rng.u32r(2, 20), rng.u32r(2, 8)];
             one(ctx, a, b, &ws);
+            // 1 in 1000: a very long line (major-axis delta 32 760..=46 000, beyond the 16-bit range; the
+            // squared length still fits an i32), axis-aligned, diagonal or oblique, thin and thick
+            if rng.chance(1, 1000) {
+                let a = Point::new(rng.i32r(-300, 300), rng.i32r(-300, 300));
+                let major = rng.i32r(32_760, 46_000) * if rng.chance(1, 2) { 1 } else { -1 };
+                let minor = match rng.below(4) {
+                    0 => 0,
+                    1 => major.abs(),
+                    _ => rng.i32r(0, major.abs()),
+                } * if rng.chance(1, 2) { 1 } else { -1 };
+                // domain: the squared Euclidean length fits the library's i32 arithmetic (length < 46 341)
+                let room = (((i32::MAX as i64) - (major as i64) * (major as i64)) as f64).sqrt() as i32 - 1;
+                let minor = minor.clamp(-room, room);
+                let b = if rng.chance(1, 2) { Point::new(a.x + major, a.y + minor) } else { Point::new(a.x + minor, a.y + major) };
+                one(ctx, a, b, &[1, rng.u32r(2, 12)]);
+                ctx.count("very_long_lines", 1);
+            }
             // 1 in 16: display-scale line (up to +-1024) with a width up to 128
             if rng.chance(1, 16) {
                 let a = Point::new(rng.biased_i32(1024), rng.biased_i32(1024));
